@@ -41,6 +41,11 @@ type TupleDef struct {
 
 var tupleDefs = map[types.Object]TupleDef{}
 
+// unstableVars: variables that are assigned after their definition, incremented,
+// ranged over or have their address taken (a name that stands for another
+// variable is followed only to a variable that is not one of these).
+var unstableVars = map[types.Object]bool{}
+
 // RegisterPackage records the transparent locals of one package.
 func RegisterPackage(info *types.Info, files []*ast.File) {
 	if info == nil {
@@ -208,6 +213,14 @@ func RegisterPackage(info *types.Info, files []*ast.File) {
 			} else {
 				opaque[o] = true
 			}
+		}
+	}
+	for o := range opaque {
+		unstableVars[o] = true
+	}
+	for o := range reassign {
+		if _, ok := def[o]; !ok || opaque[o] {
+			unstableVars[o] = true
 		}
 	}
 	for o := range zeroDecl {
@@ -659,7 +672,7 @@ func Same(info *types.Info, a, b ast.Node) bool {
 		y := b.(*ast.Ident)
 		ox, oy := obj(info, x), obj(info, y)
 		if ox != nil || oy != nil {
-			return ox == oy
+			return ox == oy || ox != nil && oy != nil && aliasRoot(info, ox) == aliasRoot(info, oy)
 		}
 		return x.Name == y.Name
 	case *ast.BasicLit:
@@ -695,6 +708,30 @@ func Same(info *types.Info, a, b ast.Node) bool {
 		return Same(info, x.X, y.X) && Same(info, x.Low, y.Low) && Same(info, x.High, y.High) && Same(info, x.Max, y.Max)
 	}
 	return false
+}
+
+// aliasRoot follows `x := y` definitions of transparent locals to the variable
+// they name, as long as that variable is never written after its definition.
+func aliasRoot(info *types.Info, o types.Object) types.Object {
+	for i := 0; i < 6; i++ {
+		d, ok := localDefs[o]
+		if !ok {
+			return o
+		}
+		id, isId := unparen(d).(*ast.Ident)
+		if !isId {
+			return o
+		}
+		t, isVar := obj(info, id).(*types.Var)
+		if !isVar || unstableVars[t] || t.IsField() {
+			return o
+		}
+		if t.Parent() != nil && t.Pkg() != nil && t.Parent() == t.Pkg().Scope() {
+			return o // a package-level variable may change behind the function's back
+		}
+		o = t
+	}
+	return o
 }
 
 func obj(info *types.Info, id *ast.Ident) types.Object {
